@@ -24,6 +24,7 @@ MAX_GATES = 1500
 ONE_Q = ["I", "X", "Y", "Z", "H", "S", "T", "P"]
 TWO_Q = ["CX", "CZ", "CP", "SWAP"]
 PARAM = {"P", "CP"}
+MULTI = ("MCX", "MCZ", "MCtrlX", "MCtrlH", "MCtrlY")  # MCX is its own class; the others are MCtrl over a base gate
 ANGLES = [math.pi, math.pi / 2, math.pi / 4, -math.pi / 2, 0.3, 2 * math.pi / 8]
 
 # ------------------------------------------------------------------ matrices (model and observer share them)
@@ -76,6 +77,8 @@ def spec_matrix(spec):
         return controlled(base_matrix("X", None), len(spec["w"]) - 1)
     if g in ("CZ", "MCZ"):
         return controlled(base_matrix("Z", None), len(spec["w"]) - 1)
+    if g in ("MCtrlX", "MCtrlH", "MCtrlY"):
+        return controlled(base_matrix(g[-1], None), len(spec["w"]) - 1)
     if g == "CP":
         return controlled(base_matrix("P", p), 1)
     return base_matrix(g, p)
@@ -147,7 +150,7 @@ CIRC_PROGS = [p for p in progs.OK if p.get("qubits", 99) <= MAX_Q and p.get("gat
 
 
 def rand_spec(r, n, gset):
-    cands = [g for g in gset if (g in ONE_Q) or (g in TWO_Q and n >= 2) or (g == "CCX" and n >= 3) or (g in ("MCX", "MCZ") and n >= 2) or g == "BARRIER"]
+    cands = [g for g in gset if (g in ONE_Q) or (g in TWO_Q and n >= 2) or (g == "CCX" and n >= 3) or (g in MULTI and n >= 2) or g == "BARRIER"]
     g = r.choice(cands)
     if g == "BARRIER":
         return {"g": g, "w": []}
@@ -169,7 +172,7 @@ class Gen:
     def __init__(self, seed, tier):
         self.seed, self.tier = seed, tier
         r = self.r = rng_for(seed, "c14")
-        allg = ONE_Q + TWO_Q + ["CCX", "MCX", "MCZ", "BARRIER"]
+        allg = ONE_Q + TWO_Q + ["CCX", "BARRIER"] + list(MULTI)
         # swarm: a random subset of the gate set; sometimes only a couple of gates so that
         # identical adjacent pairs are the norm
         if r.random() < 0.3:
@@ -300,7 +303,7 @@ class Gen:
             # ONE wires list object handed to two different gates (or one gate with two params):
             # what a caller does who builds a circuit from tuples with a reused variable
             arity = len(s["w"])
-            same = {1: ["X", "Y", "Z", "H", "S", "T", "P"], 2: ["CX", "CZ", "CP", "SWAP"], 3: ["CCX", "MCX", "MCZ"]}.get(arity, ["MCX", "MCZ"])
+            same = {1: ["X", "Y", "Z", "H", "S", "T", "P"], 2: ["CX", "CZ", "CP", "SWAP", "MCtrlH"], 3: ["CCX", "MCX", "MCZ", "MCtrlX", "MCtrlY"]}.get(arity, list(MULTI))
             g2 = self.r.choice([g for g in same if g != s["g"]] or same)
             s2 = {"g": g2, "w": list(s["w"])}
             if g2 in PARAM:
@@ -479,6 +482,8 @@ def build(qc, spec, names=None):
         qc.mcx(list(w[:-1]), w[-1])
     elif g == "MCZ":
         qc.mctrl(gates.Z(), list(w[:-1]), w[-1])
+    elif g in ("MCtrlX", "MCtrlH", "MCtrlY"):
+        qc.mctrl(getattr(gates, g[-1])(), list(w[:-1]), w[-1])
     else:
         raise RuntimeError("unknown gate spec " + g)
 
@@ -491,6 +496,8 @@ def gate_object(spec):
         return gates.MCX(len(spec["w"]) - 1)
     if g == "MCZ":
         return gates.MCtrl(gates.Z(), len(spec["w"]) - 1)
+    if g in ("MCtrlX", "MCtrlH", "MCtrlY"):
+        return gates.MCtrl(getattr(gates, g[-1])(), len(spec["w"]) - 1)
     if g == "SWAP":
         return gates.Swap()
     return getattr(gates, g)()
